@@ -458,6 +458,13 @@ def run(ctx):
     with core.Build() as b:
         simrun.run_scenarios(res, b, scn, plist, jobs=ctx.jobs)
         if not ctx.replay:
+            # a whole cycle of the client's 16-bit query id counter (Engine B, unit/idring.c: client.c as text): the ids the
+            # client remembers are the ids that left; answers under any other id (0, four queries back, neighbours, the next
+            # one, random) deliver nothing and leave the reassembly state alone; answers under the current id are delivered
+            from vflib import unitrun
+            drv = b.unit("idring", ["idring.c"], objs=core.COMMON_OBJS + ["util"], wraps=["sendto", "write"])
+            unitrun.run_sharded(res, "C06", drv, ctx.pick(4, 16), lambda i: [i, ctx.pick(4, 16), ctx.seed, ctx.pick(70000, 200000)])
+        if not ctx.replay:
             # ordinary traffic too (the workloads of the behavioural checks): a death there is the same violation
             simrun.run_scenarios(res, b, _sess.scn_survive, _sess.survive_params(ctx, "C06", "client", ctx.pick(32, 2000), 600000), jobs=ctx.jobs)
         # memcheck pass: the same scenarios, fewer of them, with non-sanitized programs under valgrind memcheck (uninitialised
